@@ -1942,12 +1942,18 @@ h2_recv_headers (connection * const con, uint8_t * const s, uint32_t flen)
 }
 
 
+static int h2_read_client_connection_preface (struct connection *con, chunkqueue *cq, off_t max_bytes);
+
 static int
 h2_parse_frames (connection * const con)
 {
     /* read and process HTTP/2 frames from socket */
     h2con * const h2c = (h2con *)con->hx;
     chunkqueue * const cq = con->read_queue;
+    /* client connection preface not yet complete (read split inside it):
+     * the octets in cq are not frames; go on reading */
+    if (con->network_read == h2_read_client_connection_preface)
+        return 1;
     /* initial max frame size is the minimum: 16k
      * (lighttpd does not currently increase max frame size)
      * (lighttpd does not currently decrease max frame size)
